@@ -1788,145 +1788,167 @@ func runLoopProgress(p *Prog, r *Report) {
 				r.Add("E14.loop-progress", fn.Name, construct, p.Pos(fs), Undecided, "loop without a condition", true)
 				return true
 			}
-			// any conjunct `v <op> bound` with a plain variable on the left ends the loop when it fails
-			var be *ast.BinaryExpr
-			var id *ast.Ident
-			var conj func(e ast.Expr)
-			conj = func(e ast.Expr) {
-				b, ok := ast.Unparen(e).(*ast.BinaryExpr)
-				if !ok || be != nil {
-					return
-				}
-				if b.Op == token.LAND {
-					conj(b.X)
-					conj(b.Y)
-					return
-				}
-				switch b.Op {
-				case token.LSS, token.LEQ, token.GTR, token.GEQ:
-					if i, ok := ast.Unparen(b.X).(*ast.Ident); ok {
-						be, id = b, i
+			// each conjunct `v <op> bound` with a plain variable on the left ends the loop when it
+			// fails: one of them with a progress argument is enough
+			try := func(skip int) (Status, string) {
+				seen := 0
+				var be *ast.BinaryExpr
+				var id *ast.Ident
+				var conj func(e ast.Expr)
+				conj = func(e ast.Expr) {
+					b, ok := ast.Unparen(e).(*ast.BinaryExpr)
+					if !ok || be != nil {
+						return
+					}
+					_ = skip
+					if b.Op == token.LAND {
+						conj(b.X)
+						conj(b.Y)
+						return
+					}
+					switch b.Op {
+					case token.LSS, token.LEQ, token.GTR, token.GEQ:
+						if i, ok := ast.Unparen(b.X).(*ast.Ident); ok {
+							if seen == skip {
+								be, id = b, i
+							}
+							seen++
+						}
 					}
 				}
-			}
-			conj(fs.Cond)
-			if be == nil {
-				r.Add("E14.loop-progress", fn.Name, construct, p.Pos(fs), Undecided, "loop condition does not compare a variable with a bound", true)
-				return true
-			}
-			o := info.ObjectOf(id)
-			down := be.Op.String() == ">" || be.Op.String() == ">="
-			up := be.Op.String() == "<" || be.Op.String() == "<="
-			var steps []*ast.AssignStmt
-			other := false
-			var post ast.Stmt = fs.Post
-			check := func(s ast.Stmt, top bool) {
-				switch s := s.(type) {
-				case *ast.AssignStmt:
-					for _, l := range s.Lhs {
-						if lid, ok := ast.Unparen(l).(*ast.Ident); ok && info.ObjectOf(lid) == o {
-							if top && ((down && s.Tok.String() == "-=") || (up && s.Tok.String() == "+=")) {
-								steps = append(steps, s)
+				conj(fs.Cond)
+				if be == nil {
+					return Undecided, "loop condition does not compare a variable with a bound"
+				}
+				o := info.ObjectOf(id)
+				down := be.Op.String() == ">" || be.Op.String() == ">="
+				up := be.Op.String() == "<" || be.Op.String() == "<="
+				var steps []*ast.AssignStmt
+				other := false
+				var post ast.Stmt = fs.Post
+				check := func(s ast.Stmt, top bool) {
+					switch s := s.(type) {
+					case *ast.AssignStmt:
+						for _, l := range s.Lhs {
+							if lid, ok := ast.Unparen(l).(*ast.Ident); ok && info.ObjectOf(lid) == o {
+								if top && ((down && s.Tok.String() == "-=") || (up && s.Tok.String() == "+=")) {
+									steps = append(steps, s)
+								} else {
+									other = true
+								}
+							}
+						}
+					case *ast.IncDecStmt:
+						if lid, ok := ast.Unparen(s.X).(*ast.Ident); ok && info.ObjectOf(lid) == o {
+							if top && ((down && s.Tok.String() == "--") || (up && s.Tok.String() == "++")) {
+								steps = append(steps, &ast.AssignStmt{Lhs: []ast.Expr{s.X}, Rhs: []ast.Expr{mkInt(1)}})
 							} else {
 								other = true
 							}
 						}
 					}
-				case *ast.IncDecStmt:
-					if lid, ok := ast.Unparen(s.X).(*ast.Ident); ok && info.ObjectOf(lid) == o {
-						if top && ((down && s.Tok.String() == "--") || (up && s.Tok.String() == "++")) {
-							steps = append(steps, &ast.AssignStmt{Lhs: []ast.Expr{s.X}, Rhs: []ast.Expr{mkInt(1)}})
-						} else {
-							other = true
-						}
-					}
 				}
-			}
-			for _, s := range fs.Body.List {
-				check(s, true)
-				// nested assignments
-				ast.Inspect(s, func(k ast.Node) bool {
-					if k == ast.Node(s) {
-						return true
-					}
-					if st, ok := k.(ast.Stmt); ok {
-						check(st, false)
-					}
-					return true
-				})
-			}
-			nBody := len(steps)
-			if post != nil {
-				check(post, true)
-			}
-			stepInPost := len(steps) == 1 && nBody == 0
-			// the step must be the last top-level statement (every iteration that does not leave reaches it)
-			if len(steps) != 1 || other {
-				r.Add("E14.loop-progress", fn.Name, construct, p.Pos(fs), Undecided, "no single unconditional step of the loop variable towards its bound", true)
-				return true
-			}
-			st := steps[0]
-			if stepInPost {
-				if _, isInc := post.(*ast.IncDecStmt); isInc {
-					r.Add("E14.loop-progress", fn.Name, construct, p.Pos(fs), OK, "the post statement moves the loop variable towards its bound by 1 on every iteration (continue included)", true)
-					return true
-				}
-			}
-			if st.Pos().IsValid() {
-				// continue statements before the step would skip it
-				skip := false
 				for _, s := range fs.Body.List {
-					if s == ast.Stmt(st) {
-						break
-					}
+					check(s, true)
+					// nested assignments
 					ast.Inspect(s, func(k ast.Node) bool {
-						if _, isLoop := k.(*ast.ForStmt); isLoop {
-							return false
+						if k == ast.Node(s) {
+							return true
 						}
-						if _, isLoop := k.(*ast.RangeStmt); isLoop {
-							return false
-						}
-						if b, ok := k.(*ast.BranchStmt); ok && b.Tok.String() == "continue" {
-							skip = true
+						if st, ok := k.(ast.Stmt); ok {
+							check(st, false)
 						}
 						return true
 					})
 				}
-				if skip && !stepInPost {
-					r.Add("E14.loop-progress", fn.Name, construct, p.Pos(fs), Undecided, "a continue can skip the step of the loop variable", true)
-					return true
+				nBody := len(steps)
+				if post != nil {
+					check(post, true)
 				}
-				ip := &idxProver{p: p, callers: callers, unsigned: map[string]bool{}, visiting: map[string]bool{}, fcName: map[string]string{}}
-				goalE := &ast.BinaryExpr{X: mkInt(1), Op: token.LEQ, Y: st.Rhs[0]}
-				ok, why := ip.prove(fn, st, []goal{{goalE, "1 <= " + exprStr(st.Rhs[0])}}, 0)
-				if !ok {
-					// step is the size of a rune decoded from a slice that is non-empty here:
-					// utf8.Decode* returns size >= 1 for non-empty input
-					if sid, isId := ast.Unparen(st.Rhs[0]).(*ast.Ident); isId {
-						so := info.ObjectOf(sid)
-						if as := fn.Assignments(so); len(as) == 1 {
-							if def, isA := as[0].(*ast.AssignStmt); isA && len(def.Lhs) == 2 && len(def.Rhs) == 1 && isIdentObj(info, def.Lhs[1], so) {
-								if c, isC := ast.Unparen(def.Rhs[0]).(*ast.CallExpr); isC && strings.HasPrefix(calleeFull(info, c), "unicode/utf8.Decode") && len(c.Args) == 1 && nodeContains(fs.Body, def) {
-									g2 := &ast.BinaryExpr{X: mkInt(1), Op: token.LEQ, Y: mkLen(c.Args[0])}
-									ok2, why2 := ip.prove(fn, def, []goal{{g2, "1 <= len(" + exprStr(c.Args[0]) + ")"}}, 0)
-									if ok2 {
-										ok, why = true, ""
-										r.Add("E14.loop-progress", fn.Name, construct, p.Pos(fs), OK, "the loop variable moves towards its bound by the size of a rune decoded from the non-empty slice "+exprStr(c.Args[0])+" (>= 1 byte) on every iteration", true)
-										return true
+				stepInPost := len(steps) == 1 && nBody == 0
+				// the step must be the last top-level statement (every iteration that does not leave reaches it)
+				if len(steps) != 1 || other {
+					return Undecided, "no single unconditional step of the loop variable towards its bound"
+				}
+				st := steps[0]
+				if stepInPost {
+					if _, isInc := post.(*ast.IncDecStmt); isInc {
+						return OK, "the post statement moves the loop variable towards its bound by 1 on every iteration (continue included)"
+					}
+				}
+				if st.Pos().IsValid() {
+					// continue statements before the step would skip it
+					skip := false
+					for _, s := range fs.Body.List {
+						if s == ast.Stmt(st) {
+							break
+						}
+						ast.Inspect(s, func(k ast.Node) bool {
+							if _, isLoop := k.(*ast.ForStmt); isLoop {
+								return false
+							}
+							if _, isLoop := k.(*ast.RangeStmt); isLoop {
+								return false
+							}
+							if b, ok := k.(*ast.BranchStmt); ok && b.Tok.String() == "continue" {
+								skip = true
+							}
+							return true
+						})
+					}
+					if skip && !stepInPost {
+						return Undecided, "a continue can skip the step of the loop variable"
+					}
+					ip := &idxProver{p: p, callers: callers, unsigned: map[string]bool{}, visiting: map[string]bool{}, fcName: map[string]string{}}
+					goalE := &ast.BinaryExpr{X: mkInt(1), Op: token.LEQ, Y: st.Rhs[0]}
+					ok, why := ip.prove(fn, st, []goal{{goalE, "1 <= " + exprStr(st.Rhs[0])}}, 0)
+					if !ok {
+						// step is the size of a rune decoded from a slice that is non-empty here:
+						// utf8.Decode* returns size >= 1 for non-empty input
+						if sid, isId := ast.Unparen(st.Rhs[0]).(*ast.Ident); isId {
+							so := info.ObjectOf(sid)
+							if as := fn.Assignments(so); len(as) == 1 {
+								if def, isA := as[0].(*ast.AssignStmt); isA && len(def.Lhs) == 2 && len(def.Rhs) == 1 && isIdentObj(info, def.Lhs[1], so) {
+									if c, isC := ast.Unparen(def.Rhs[0]).(*ast.CallExpr); isC && strings.HasPrefix(calleeFull(info, c), "unicode/utf8.Decode") && len(c.Args) == 1 && nodeContains(fs.Body, def) {
+										g2 := &ast.BinaryExpr{X: mkInt(1), Op: token.LEQ, Y: mkLen(c.Args[0])}
+										ok2, why2 := ip.prove(fn, def, []goal{{g2, "1 <= len(" + exprStr(c.Args[0]) + ")"}}, 0)
+										if ok2 {
+											ok, why = true, ""
+											return OK, "the loop variable moves towards its bound by the size of a rune decoded from the non-empty slice " + exprStr(c.Args[0]) + " (>= 1 byte) on every iteration"
+										}
+										why = why2
 									}
-									why = why2
 								}
 							}
 						}
 					}
-				}
-				if ok {
-					r.Add("E14.loop-progress", fn.Name, construct, p.Pos(fs), OK, "the loop variable moves towards its bound by "+exprStr(st.Rhs[0])+" >= 1 on every iteration", true)
+					if ok {
+						return OK, "the loop variable moves towards its bound by " + exprStr(st.Rhs[0]) + " >= 1 on every iteration"
+					} else {
+						return Undecided, "step " + exprStr(st.Rhs[0]) + " not proved positive: " + why
+					}
 				} else {
-					r.Add("E14.loop-progress", fn.Name, construct, p.Pos(fs), Undecided, "step "+exprStr(st.Rhs[0])+" not proved positive: "+why, true)
+					return OK, "the loop variable moves towards its bound by 1 on every iteration"
 				}
-			} else {
-				r.Add("E14.loop-progress", fn.Name, construct, p.Pos(fs), OK, "the loop variable moves towards its bound by 1 on every iteration", true)
+			}
+			var first *[2]interface{}
+			decided := false
+			for k := 0; k < 4 && !decided; k++ {
+				st, msg := try(k)
+				if st == OK {
+					r.Add("E14.loop-progress", fn.Name, construct, p.Pos(fs), OK, msg, true)
+					decided = true
+					break
+				}
+				if first == nil {
+					first = &[2]interface{}{st, msg}
+				}
+				if msg == "loop condition does not compare a variable with a bound" {
+					break // no further conjunct
+				}
+			}
+			if !decided && first != nil {
+				r.Add("E14.loop-progress", fn.Name, construct, p.Pos(fs), first[0].(Status), first[1].(string), true)
 			}
 			return true
 		})
